@@ -845,6 +845,12 @@ func (b *blk) finish() *types.Block {
 		e.broken = true
 		return nil
 	}
+	// what the node stored: header gas used == last receipt's cumulative gas == sum over the receipts
+	if d, ok := storedGasConsistent(e.bc, block.Hash()); !ok {
+		c.ViolateInput("cumulative_gas_not_sum_of_receipts", "InsertChain", "stored_block", where+": "+d, in)
+	} else {
+		c.Count("stored_block_gas_compared")
+	}
 	c.Count("block_imported")
 	if len(b.txs) > 1 {
 		c.Count("block_with_several_txs_imported")
